@@ -64,11 +64,13 @@ pub struct RigCfg {
     /// None: growing Vec storage; Some(n): fixed array of n slots
     pub fixed_slots: Option<usize>,
     pub operate: bool,
+    /// value of the master's clock at the start (microseconds; 0 = the usual 1 ms after zero)
+    pub origin_us: i64,
 }
 
 impl RigCfg {
     pub fn basic(periphs: Vec<PeriphCfg>) -> Self {
-        RigCfg { ts: 2, baud: 1, max_retry: 1, min_tsdr: 11, watchdog_ms: None, slot_bits: None, periphs, fixed_slots: None, operate: true }
+        RigCfg { ts: 2, baud: 1, max_retry: 1, min_tsdr: 11, watchdog_ms: None, slot_bits: None, periphs, fixed_slots: None, operate: true, origin_us: 0 }
     }
 }
 
@@ -158,7 +160,7 @@ impl Rig {
         let params = build_params(cfg);
         let fdl = FdlActiveStation::new(params);
         let (dp, handles) = make_master(cfg);
-        Rig { cfg: cfg.clone(), fdl, dp, handles, now_us: 1000 }
+        Rig { cfg: cfg.clone(), fdl, dp, handles, now_us: 1000 + cfg.origin_us }
     }
 
     pub fn now(&self) -> Instant {
